@@ -652,6 +652,12 @@ def oldFill (g : OldGb) (gs : OldGroups) (v : Item) : Except String OldGroups :=
   | .error e => .error e
   | .ok k => .ok (groupsAddG k v gs)
 
+/-- `_GroupBy.reset()`: `self.groups.clear()`; `clear()` and `update(val)` are the deprecated aliases of
+`reset()` and `fill(val)` (they warn first) -/
+def oldReset (_ : OldGroups) : OldGroups := []
+def oldClear (gs : OldGroups) : OldGroups := oldReset gs
+def oldUpdate (g : OldGb) (gs : OldGroups) (v : Item) : Except String OldGroups := oldFill g gs v
+
 /-- `_GroupBy.fill` over a flow, stopping at the first exception -/
 def oldFillAll (g : OldGb) : OldGroups → List Item → Except String OldGroups
   | gs, [] => .ok gs
